@@ -204,7 +204,7 @@ def hermite(u):
     f.hint("loop 4 begin", """let ghost h0 = hermite; let ghost w = 2 * xs@.len() as int; let ghost iv = i as int;
     proof { assert(iv == w - 1 - it4.index@); lemma_widx(w, iv, iv); }""")
     f.anf("hermite *=", "t", bind_root=True)
-    f.hint("after: hermite += qs[i + i *", "let ghost h1 = hermite;")
+    f.hint("after: hermite += qs[i", "let ghost h1 = hermite;")
     f.hint("loop 4 end", """proof {
         let xk = xs@[(iv - 1) / 2]@;
         assert forall|x: real| #[trigger] pval(hermite, x) == newton_h(qs@, xs@, w, iv, x) by {
